@@ -40,26 +40,26 @@ type unwindExceeded struct{ where string }
 // ---------------------------------------------------------------- engine (shared, read-only)
 
 type Engine struct {
-	Prog        *ssa.Program
-	Fset        *token.FileSet
-	Interpreted func(*ssa.Package) bool
-	Sizes       types.Sizes
-	Stubs       map[string]StubFn
-	Natives     map[string]interface{} // package-level native funcs / globals (reflect bridge)
-	Whitelist   map[string]bool        // library functions interpreted from their own SSA
-	WhitelistPkgs map[string]bool      // library packages whose unstubbed functions are interpreted
-	Trace       bool
-	MaxSteps    int
-	MaxForks    int
+	Prog           *ssa.Program
+	Fset           *token.FileSet
+	Interpreted    func(*ssa.Package) bool
+	Sizes          types.Sizes
+	Stubs          map[string]StubFn
+	Natives        map[string]interface{} // package-level native funcs / globals (reflect bridge)
+	Whitelist      map[string]bool        // library functions interpreted from their own SSA
+	WhitelistPkgs  map[string]bool        // library packages whose unstubbed functions are interpreted
+	Trace          bool
+	MaxSteps       int
+	MaxForks       int
 	MaxBlockVisits int
-	SolverKind  SolverKind
-	TimeoutMs   int
-	Prelude     string
-	FuncsEntered map[string]bool
-	SkeletonRoot string
-	CrossCheck  int // thorough tier: every CrossCheck-th symbolic obligation is re-decided by z3 4.8.12 and cvc5 (0 = off)
-	SamplePath  func(decisions []int) bool // sample completed paths for native validation replays
-	SubmatchHook func(r *Run, re *regexp.Regexp, s *Term) (value, bool)
+	SolverKind     SolverKind
+	TimeoutMs      int
+	Prelude        string
+	FuncsEntered   map[string]bool
+	SkeletonRoot   string
+	CrossCheck     int                        // thorough tier: every CrossCheck-th symbolic obligation is re-decided by z3 4.8.12 and cvc5 (0 = off)
+	SamplePath     func(decisions []int) bool // sample completed paths for native validation replays
+	SubmatchHook   func(r *Run, re *regexp.Regexp, s *Term) (value, bool)
 }
 
 type StubFn func(r *Run, fr *frame, fn *ssa.Function, args []value) value
@@ -113,25 +113,25 @@ type Run struct {
 	fresh    map[string]int
 	steps    int
 
-	Effects []Effect
-	Stderr  []value // everything the run wrote to standard error, in order
-	Diags   []Diag
-	ObsList []Obs
-	Asserts []AssertRec
-	Reached map[string]bool
-	Viol    []Violation
-	Inconclusive []string
-	funcs   map[string]bool
-	stubsHit map[string]bool
-	initDone map[*ssa.Package]bool
-	ExploreMapOrder bool
-	Env     map[string]value // harness-configured environment (flags etc.)
-	depth   int
-	unknownFeas int
+	Effects                           []Effect
+	Stderr                            []value // everything the run wrote to standard error, in order
+	Diags                             []Diag
+	ObsList                           []Obs
+	Asserts                           []AssertRec
+	Reached                           map[string]bool
+	Viol                              []Violation
+	Inconclusive                      []string
+	funcs                             map[string]bool
+	stubsHit                          map[string]bool
+	initDone                          map[*ssa.Package]bool
+	ExploreMapOrder                   bool
+	Env                               map[string]value // harness-configured environment (flags etc.)
+	depth                             int
+	unknownFeas                       int
 	ccCount, CrossAgree, CrossUnknown int
-	permuted bool
-	pcVars  map[*Term]bool
-	pcLits  map[*Term]bool
+	permuted                          bool
+	pcVars                            map[*Term]bool
+	pcLits                            map[*Term]bool
 }
 
 type frame struct {
@@ -161,7 +161,14 @@ func (fr *frame) get(key ssa.Value) value {
 	if r, ok := fr.env[key]; ok {
 		return r
 	}
-	panic(fmt.Sprintf("get: no value for %T: %v", key, key.Name()))
+	where := ""
+	if in, ok := key.(ssa.Instruction); ok && in.Parent() != nil {
+		where = fmt.Sprintf(" defined in %s block %d; frame of %s block %d", in.Parent(), in.Block().Index, fr.fn, fr.block.Index)
+		if fr.prevBlock != nil {
+			where += fmt.Sprintf(" (from block %d)", fr.prevBlock.Index)
+		}
+	}
+	panic(fmt.Sprintf("get: no value for %T: %v%s", key, key.Name(), where))
 }
 
 func (r *Run) global(g *ssa.Global) value {
@@ -658,6 +665,11 @@ func visitInstr(fr *frame, instr ssa.Instruction) continuation {
 			if p == nil {
 				fr.panicAt(instr, "nil-deref", "field access through nil pointer")
 			}
+			if mv, ok := (*p).(movedNative); ok {
+				fname := mustDeref(instr.X.Type()).Underlying().(*types.Struct).Field(instr.Field).Name()
+				fr.env[instr] = r.nativeFieldAddr(fr, instr, mv.ptr, fname)
+				break
+			}
 			fr.env[instr] = &(*p).(structure)[instr.Field]
 		case nativeV:
 			fname := mustDeref(instr.X.Type()).Underlying().(*types.Struct).Field(instr.Field).Name()
@@ -889,8 +901,8 @@ func (r *Run) callSSA(caller *frame, callpos token.Pos, fn *ssa.Function, args [
 		}
 	}
 	if !interp && !nativeRecv && (r.E.Whitelist[name] || (fn.Pkg != nil && r.E.WhitelistPkgs[fn.Pkg.Pkg.Path()])) {
-		if fn.Blocks == nil && fn.Pkg != nil {
-			fn.Pkg.Build()
+		if fn.Pkg != nil {
+			fn.Pkg.Build() // (sync.Once inside: returns only when the package is completely built)
 		}
 		interp = fn.Blocks != nil
 	}
@@ -903,10 +915,10 @@ func (r *Run) callSSA(caller *frame, callpos token.Pos, fn *ssa.Function, args [
 		}
 		panic(unsupported("callee without semantics: " + name + " (called from " + callerName(caller) + ")"))
 	}
+	if fn.Pkg != nil {
+		fn.Pkg.Build()
+	}
 	if fn.Blocks == nil {
-		if fn.Pkg != nil {
-			fn.Pkg.Build()
-		}
 		if fn.Blocks == nil {
 			panic(unsupported("no code for function: " + name))
 		}
@@ -1102,8 +1114,8 @@ func (r *Run) StubsHit() []string {
 	sort.Strings(l)
 	return l
 }
-func (r *Run) Pending() [][]int  { return r.pending }
-func (r *Run) PC() []*Term       { return r.pc }
-func (r *Run) Inputs() []*Term   { return r.inputs }
-func (r *Run) UnknownFeas() int  { return r.unknownFeas }
-func (r *Run) Steps() int        { return r.steps }
+func (r *Run) Pending() [][]int { return r.pending }
+func (r *Run) PC() []*Term      { return r.pc }
+func (r *Run) Inputs() []*Term  { return r.inputs }
+func (r *Run) UnknownFeas() int { return r.unknownFeas }
+func (r *Run) Steps() int       { return r.steps }
